@@ -33,7 +33,9 @@ CLAIMS = {
             "distinct, same values with and without paths, datum / multiplicity modifiers by definition, both application orders "
             "commute, multiplicity refused on concrete paths. Differential run over every datum x multiplicity modifier in both orders.",
             "DESIGN.md section 7 C04"),
-    "C05": ("5 theorems (ValidaProofs/C05.lean): filtering the selection with paths equals filtering the plain values for every tree "
+    "C05": ("6 theorems (ValidaProofs/C05.lean, C05Walk.lean). Headline `C05_valid_iff_every_selected_node_satisfies`: for every rule in "
+            "the domain and every document, tested iff the reference walk selects a node, valid iff every selected node satisfies the "
+            "condition, and the failures are exactly the failing nodes, in walk order, each with its walk path and a reason. Also: filtering the selection with paths equals filtering the plain values for every tree "
             "shape (paths extracted once, at the left-most leaf), a false item always has a reason, untested/valid when nothing is "
             "selected, the verdict and the exact failure list. Differential run of Rule.test plus an independent reference verdict.",
             "DESIGN.md section 7 C05"),
@@ -89,7 +91,9 @@ CLAIMS = {
             "fails the item (except-tuple generated from the source), escaped keys are literal, un-escaped ones are paths. Known finding D18 "
             "(paths nested inside list / mapping arguments are never resolved) is listed. The harness's expected values come from an "
             "independent reference walk.", "DESIGN.md section 7 C17"),
-    "C18": ("9 theorems (ValidaProofs/C18.lean): add_schema builds new rules (read from the source), the extended rule list is the stable "
+    "C18": ("11 theorems (ValidaProofs/C18.lean, C05Walk.lean). Headline `C18_rerooted_rule_judges_subdocument`: a re-rooted rule judges "
+            "the whole document exactly as the original rule judges the sub-document at the root (same tested / valid / failing values, "
+            "paths prefixed), and is untested and valid when the root is absent. Also: add_schema builds new rules (read from the source), the extended rule list is the stable "
             "sort of S plus the re-rooted rules, additions are independent, walking a concatenated path = walking the root then the rest "
             "with prefixed concrete paths, cast-free judgement counts add up.", "DESIGN.md section 7 C18"),
     "C19": ("16 theorems (ValidaProofs/C19.lean): for EVERY structure handed to the condition / path / part-list / part / rule parsers the "
